@@ -72,7 +72,7 @@ def dec4(tok):
     return int(round(float(re.sub(r"\(\d+\)", "", tok)) * 1e4))
 
 
-def abstract_file(text):
+def abstract_file(text, charge_scale=1):
     items, loops = parse_cif(text)
     F = {"spacegroup": items.get("_symmetry_space_group_name_H-M", "absent"),
          "cellpar": [dec4(items[k]) for k in ("_cell_length_a", "_cell_length_b", "_cell_length_c", "_cell_angle_alpha",
@@ -91,7 +91,14 @@ def abstract_file(text):
                 F["coordkind"] = "cartn"
                 keys = [k for k in tags if k.lower() in ("_atom_site_cartn_x", "_atom_site_cartn_y", "_atom_site_cartn_z")]
             F["coords"] = [[micro(col[k][r]) // 100 if micro(col[k][r]) % 100 == 0 else 10 ** 9 for k in keys] for r in range(len(rows))]
-            F["charges"] = [micro(x) for x in col.get("_atom_site_charge", [])]
+            if charge_scale == 1:
+                F["charges"] = [micro(x) for x in col.get("_atom_site_charge", [])]
+            else:               # charges written scaled by an exact power of two: scaled back exactly (rational arithmetic)
+                from fractions import Fraction
+                # (the writer prints the shortest decimal that reads back as the same binary number: the token is read as
+                # that binary number, exactly)
+                vals = [Fraction(float(x)) * charge_scale * 10 ** 6 for x in col.get("_atom_site_charge", [])]
+                F["charges"] = [int(v) if v.denominator == 1 else 2 ** 30 for v in vals]     # 2^30: not the charge written
             handled = set(keys) | {"_atom_site_label", "_atom_site_type_symbol", "_atom_site_charge"}
             F["atom_extra_labels"] = [t for t in tags if t not in handled]
             F["atom_extra"] = [col[t] for t in F["atom_extra_labels"]]
@@ -144,8 +151,11 @@ def ase_agrees(path, a):
     return "yes"
 
 
-def do_roundtrip(c, td, intcell=False):
-    """intcell: the cell is handed over as an integer array (what the constructor stores for `cell=[[8,0,0],...]`);
+def do_roundtrip(c, td, intcell=False, rot=None, tiny=False):
+    """rot: the whole crystal (cell vectors and atoms) turned by this exact cube rotation before it is written: the same
+    crystal, a box-shaped cell stays exactly orthogonal but is no longer diagonal.  tiny: all charges scaled by 2^-16
+    (exact) so that the writer prints them in exponent notation; scaled back after reading.
+    intcell: the cell is handed over as an integer array (what the constructor stores for `cell=[[8,0,0],...]`);
     only for orthorhombic cells with whole-number lengths"""
     from mofun import Atoms
     K = c["K"]
@@ -158,14 +168,22 @@ def do_roundtrip(c, td, intcell=False):
             a = render(dict(K, cell=[]), Rendering("id", 1.0))
             a.cell = np.array(np.rint(cell), dtype=int) if intcell else cell
             a.positions = (np.array(K["pos"], dtype=float) / 80.0) @ cell
+            if rot is not None:
+                a.cell = np.array(a.cell, dtype=float) @ rot.T
+                a.positions = np.array(a.positions) @ rot.T
+            if tiny:
+                a.charges = np.array(a.charges, dtype=float) * 2.0 ** -16
             if c["out"] == "cart":
                 with open(path, "w") as fh:
                     a.save_p1_cif(fh, use_fract_coords=False)
             else:
                 a.save(path)
             text1 = open(path).read()
-            ev["F"] = abstract_file(text1)
+            ev["F"] = abstract_file(text1, 2 ** 16 if tiny else 1)
             a2 = Atoms.load(path)
+            if tiny:
+                a2 = a2.copy()
+                a2.charges = np.array(a2.charges, dtype=float) * 2.0 ** 16
             K2 = project(a2, Rendering("id", 1.0), residual_tol=1e9)
             ev["K2"] = frac_project(a2, cell, K2)
             ev["cellpar2"] = cellpar_of(a2)
@@ -251,6 +269,9 @@ def _chunk(task):
             out.append((ci, do_roundtrip(c, td) if c["kind"] == "roundtrip" else do_read(c, td)))
             if c["kind"] == "roundtrip" and c["cellpar"][3:] == [900000] * 3 and all(x % 10000 == 0 for x in c["cellpar"][:3]):
                 out.append((ci, do_roundtrip(c, td, intcell=True)))
+            if c["kind"] == "roundtrip" and c["out"] == "fract":
+                from .findops import ROT24
+                out.append((ci, do_roundtrip(c, td, rot=ROT24[1 + (ci * 7) % 23], tiny=(ci % 2 == 0))))
     return out
 
 
